@@ -25,7 +25,11 @@
 (*                     standalone | detector, key in the exported All,     *)
 (*                     Name(), Version(), Requirements(), RequiredExtr.)   *)
 (*   filter            per (capability tuple, kind): names kept by         *)
-(*                     FromCapabilities / FilterByCapabilities             *)
+(*                     FromCapabilities / FilterByCapabilities; a second   *)
+(*                     fact per pair (round = 2) holds the answer of a     *)
+(*                     repeated call after the caller overwrote the first  *)
+(*                     answer in place ("<nil>" / "<panic>" entries then   *)
+(*                     fail FilterExact): the clause holds on every call   *)
 (*   validate          per (plugin, capability tuple): did                 *)
 (*                     plugin.ValidateRequirements accept                  *)
 (*   registry          per kind: plugin names and group names advertised   *)
